@@ -126,6 +126,7 @@ type Result struct {
 	Goroutines     []string   `json:"goroutines,omitempty"` // go-plugin goroutines left in the host
 	SyncOut        string     `json:"sync_out,omitempty"`
 	SyncErr        string     `json:"sync_err,omitempty"`
+	SyncClosed     bool       `json:"sync_closed,omitempty"`   // somebody closed one of the application's writers (SyncStdout, SyncStderr, Stderr)
 	Addr           string     `json:"addr,omitempty"`          // network|address returned by the last successful Start
 	XlateRefused   int64      `json:"xlate_refused,omitempty"` // addresses the container-like runner refused to translate
 	PluginLog      string     `json:"plugin_log,omitempty"`    // tail of the plugin's raw stderr (ClientConfig.Stderr), for diagnosis
@@ -143,16 +144,30 @@ type Result struct {
 const cookieKey, cookieVal = "VERIF_PLUGIN_COOKIE", "c0ffee"
 
 type lockedBuf struct {
-	mu sync.Mutex
-	b  bytes.Buffer
+	mu     sync.Mutex
+	b      bytes.Buffer
+	closed bool
 }
 
 func (l *lockedBuf) Write(p []byte) (int, error) {
 	l.mu.Lock()
 	defer l.mu.Unlock()
+	if l.closed {
+		return 0, os.ErrClosed
+	}
 	return l.b.Write(p)
 }
-func (l *lockedBuf) String() string { l.mu.Lock(); defer l.mu.Unlock(); return l.b.String() }
+
+// Close makes the application's writers closable (a log file, a pipe, a connection): they belong to the application,
+// which closes them when IT is done; whoever else closes one silences every stream that still uses it.
+func (l *lockedBuf) Close() error {
+	l.mu.Lock()
+	defer l.mu.Unlock()
+	l.closed = true
+	return nil
+}
+func (l *lockedBuf) wasClosed() bool { l.mu.Lock(); defer l.mu.Unlock(); return l.closed }
+func (l *lockedBuf) String() string  { l.mu.Lock(); defer l.mu.Unlock(); return l.b.String() }
 
 func hostPlugins(proto string) plugin.PluginSet {
 	if proto == "grpc" {
@@ -1076,6 +1091,7 @@ func RunCell(c *Cell) (res *Result) {
 	}
 	res.XlateRefused = xlateRefused.Load()
 	res.SyncOut, res.SyncErr = so.String(), se.String()
+	res.SyncClosed = so.wasClosed() || se.wasClosed() || plog.wasClosed()
 	res.StderrLines = strings.Count(plog.String(), "\n")
 	if pl := plog.String(); len(pl) > 3000 {
 		res.PluginLog = pl[len(pl)-3000:]
